@@ -6,6 +6,7 @@ from hypothesis import strategies as st
 from conda_content_trust import common as C
 
 from vlib import gen_json as G, gen_pyvalues as GP, keys, ref_grammar as g
+from vlib import fuzz as FZ
 from vlib.runner import Unit, Violation
 
 PROPERTY = "C15"
@@ -281,6 +282,10 @@ def check_boundary(case):
     return {"nontrivial": True, "labels": [name], "count": {"strings_x_validators": n}}
 
 
+def check_fuzz(case):
+    return FZ.run_campaign("fuzz_grammar", case, PROPERTY)
+
+
 UNITS = [
     Unit("strings", check_strings, strategy=_strings, quick=3000, thorough=100000,
          essential=["kind=sub", "kind=ins", "kind=app", "kind=length", "kind=upper", "kind=mixed"],
@@ -291,6 +296,8 @@ UNITS = [
          essential=["shape=raw", "shape=gpg", "shape=invalid"], doc="dicts as signature entries == raw / OpenPGP shapes"),
     Unit("keylists", check_keylists, strategy=_keylists, quick=1500, thorough=50000,
          essential=["dup", "variants"], doc="accepted key strings/lists/delegations never hold one key under two spellings"),
+    Unit("fuzz", check_fuzz, enumerate=lambda tier: FZ.campaigns(tier, PROPERTY), shards_quick=4, shards_thorough=16,
+         doc="atheris (libFuzzer) coverage-guided campaign with the oracle in-target"),
     Unit("boundary", check_boundary, enumerate=enum_boundary, exhaustive=True, shards_quick=8,
          doc="every position x every special character x {insert, substitute, substitute+delete, replace a byte pair} on a valid key/signature/fingerprint"),
 ]
